@@ -13,3 +13,81 @@ Theorem C03_rloop_no_elements : forall bodyf elsef has_else key val sep saved c 
   rloop_each bodyf elsef has_else key val sep saved [] c w 0 0 = rloop_finish elsef has_else saved c w 0.
 Proof. exact rloop_no_elements. Qed.
 Print Assumptions C03_rloop_no_elements.
+
+(* ---- refinement of the reference semantics: loops, and the central theorem
+        (Proofs/RefineLoops.v, RefineMain.v) ---- *)
+From Coq Require Import String.
+From DT Require Import Model.Mods Spec.Ast Spec.RefEval Spec.Compile Proofs.FlatProofs Proofs.RefineBase
+  Proofs.RefineList Proofs.RefineNodes Proofs.RefineLoops Proofs.RefineMain Proofs.RefineFindings.
+
+(* counter loop: one iteration per counter value while the bound comparison holds and no break is
+   pending, separator between iterations, else iff no iteration, the loop variable (a live cell in
+   the interpreter) reads as the counter, break depth bookkeeping; same budget on both sides *)
+Theorem C03_cloop_refines :
+  forall flits lookup budget inc rlookup rinc L var init lim (initlit limlit : bool) cop step sep body els (he : bool),
+    (forall idx : nat, items_ok flits lookup budget inc rlookup rinc false ((idx, var) :: L) body) ->
+    (he = true -> items_ok flits lookup budget inc rlookup rinc true L els) ->
+    node_ref flits lookup budget inc rlookup rinc L
+      (NLoopCount var init lim sep initlit limlit cop step
+         (loop_children (merge_raws (c_list compile body)) (merge_raws (c_list compile els)) he))
+      (ACLoop var init lim initlit limlit cop step sep body els he).
+Proof. exact cloop_node_ref. Qed.
+Print Assumptions C03_cloop_refines.
+
+(* range loop: one iteration per element the inspector delivers, in order *)
+Theorem C03_rloop_refines :
+  forall flits lookup budget inc rlookup rinc L key val src sep body els (he : bool),
+    items_ok flits lookup budget inc rlookup rinc false L body ->
+    (he = true -> items_ok flits lookup budget inc rlookup rinc true L els) ->
+    node_ref flits lookup budget inc rlookup rinc L
+      (NLoopRange key val src sep
+         (loop_children (merge_raws (c_list compile body)) (merge_raws (c_list compile els)) he))
+      (ARLoop key val src sep body els he).
+Proof. exact rloop_node_ref. Qed.
+Print Assumptions C03_rloop_refines.
+
+(* the central theorem, by structural induction over the AST: every supported item, as a template
+   of its own ... *)
+Theorem C03_interp_refines_ref :
+  forall flits lookup budget inc rlookup rinc,
+    lookup_ok lookup rlookup -> (forall L, inc_ok inc rlookup rinc L) ->
+    forall a L, wf_supported true a = true -> refines flits lookup budget inc rlookup rinc L a.
+Proof. exact interp_refines_ref. Qed.
+Print Assumptions C03_interp_refines_ref.
+
+(* ... and every template of supported items *)
+Theorem C03_tpl_refines_ref :
+  forall flits lookup budget inc rlookup rinc,
+    lookup_ok lookup rlookup -> (forall L, inc_ok inc rlookup rinc L) ->
+    forall items L, forallb (wf_supported true) items = true ->
+    forall c w, Inv L c -> w_fail w = None ->
+    forall o e' s, ref_items flits rlookup budget rinc items (abs c) = (o, e', s) -> sig_dom s ->
+    exists c' w' eo, run_nodes flits lookup budget inc (compile_tpl items) c w = Out c' w' eo /\
+                     wr_bytes w' = wr_bytes w ++ o /\ w_fail w' = None /\ post L s c' e' /\ sig_rel s eo.
+Proof. exact tpl_refines_ref. Qed.
+Print Assumptions C03_tpl_refines_ref.
+
+(* the node of every supported single-node construct *)
+Theorem C03_node_refines_ref :
+  forall flits lookup budget inc rlookup rinc,
+    lookup_ok lookup rlookup -> (forall L, inc_ok inc rlookup rinc L) ->
+    forall a n L, compile a = [n] -> is_raw n = false -> wf_supported false a = true ->
+    node_ref flits lookup budget inc rlookup rinc L n a.
+Proof. exact node_refines_ref. Qed.
+Print Assumptions C03_node_refines_ref.
+
+(* without the restrictions the statement is false *)
+Theorem C03_unrestricted_refuted : ~ refines_full_statement.
+Proof. exact refines_refuted. Qed.
+Print Assumptions C03_unrestricted_refuted.
+
+(* the restrictions are not vacuous: a template using every supported construct, on a context
+   with a struct variable *)
+Example C03_sample_supported : forallb (wf_supported true) t_sample = true.
+Proof. vm_compute. reflexivity. Qed.
+Example C03_sample_context : Inv [] c_sample.
+Proof. exact Inv_c_sample. Qed.
+Example C03_sample_agrees :
+  mout t_sample c_sample = Some (B "Hi BOB: 0,1,2 a|b&lt; adult B 42/7"%string, Some EInterrupt) /\
+  rout t_sample c_sample = (B "Hi BOB: 0,1,2 a|b&lt; adult B 42/7"%string, SExit).
+Proof. vm_compute. split; reflexivity. Qed.
